@@ -23,6 +23,7 @@ from checks import c06
 
 LEAN_TARGETS = ["LyModel.Props.C13"]
 AUDIT = "Audit/C13.lean"
+GENERATED = ["Diff13"]
 HARNESS = "api_diff13"
 COMP = "diff13"
 ENV = {"VERIF_YANG_DIR": os.path.join(paths.REPO, "tests", "modules", "yang")}
@@ -35,6 +36,9 @@ ASSUMPTIONS = [
     "lyd_diff_apply_all ignore it",
     "equality after apply is lyd_compare_siblings(FULL_RECURSION | DEFAULTS) (with LYD_DIFF_DEFAULTS) or re-validation followed by "
     "lyd_compare_siblings(FULL_RECURSION) (without); the model compares the explicit parts in the second case",
+    "reverse_apply_partial is proved for exact diffs (Diff/Exact13.lean: exactDiff) of good trees (goodT) under KeyOrder (the type "
+    "plugins' sort callbacks are strict total orders); that lyd_diff_siblings(LYD_DIFF_DEFAULTS) produces exact diffs on the "
+    "fragment is evaluated on every generated pair whose trees are good (op `exact`), not proved",
     "user-ordered lists/leaf-lists are outside the merge law (lyd_diff_is_redundant documents the merge of moves as lossy): "
     "their merge is compared with the model but a failing apply/compare is not a violation",
 ]
@@ -278,12 +282,13 @@ def classify(component, what, case):
 # ----------------------------------------------------------------------------------------------------
 
 class Case:
-    __slots__ = ("s", "A", "B", "C", "kind", "a", "b", "c", "D1", "D2", "f1", "f2")
+    __slots__ = ("s", "A", "B", "C", "kind", "a", "b", "c", "D1", "D2", "f1", "f2", "gap")
 
     def __init__(self, s, A, B, C, kind):
         self.s, self.A, self.B, self.C, self.kind = s, A, B, C, kind
         self.a = self.b = self.c = None
         self.D1, self.D2, self.f1, self.f2 = {}, {}, {}, {}
+        self.gap = set()                     # option settings for which the model's diff is not libyang's (C06 gap)
 
 
 def schema_line(i, s):
@@ -411,7 +416,16 @@ def process(cx, schemas, cases, tag, reverse=True, merge=True, laws_every=4, mer
                 idx[i] = (c, o, 2)
     ri = run_impl(cx, schemas, lines)
     rm = run_model(cx, schemas, lines)
-    compare(cx, lines, ri, rm, kind_of, nontriv)
+    for l in lines:
+        i = l.split()[0]
+        a, b = ri.get(i, ["err", "NoReply"]), rm.get(i, ["err", "NoReply"])
+        cx.count(" ".join(l.split()[2:]), nontriv(l, a), kind_of(l, a))
+        if a != b and a[:2] not in (["err", "Crash"], ["err", "Timeout"]):
+            # the diff itself is C06's correspondence (component diff); such a case cannot be compared here
+            idx[i][0].gap.add(idx[i][1])
+            cx.dist["skipped: the diff model disagrees with lyd_diff_siblings (C06 gap)"] += 1
+    if lines:
+        cx.sample(lines[cx.rng.randrange(len(lines))][:600])
     for i, (c, o, which) in idx.items():
         r = ri.get(i, ["err", "NoReply"])
         if r[0] != "ok":
@@ -422,6 +436,19 @@ def process(cx, schemas, cases, tag, reverse=True, merge=True, laws_every=4, mer
         else:
             c.D2[o] = tg.untok(c.s, r[1])
             c.f2[o] = c06.features(c.s, tg.untok(c.s, c.b), tg.untok(c.s, c.c), c.D2[o], o)
+    # ---- 1b. the hypothesis of reverse_apply_partial, evaluated by the model on its own diffs (= libyang's, stage 1)
+    if True:
+        lines = []
+        for k, c in enumerate(cases):
+            if not any(n.is_userord() or n.dup_inst() for n in c.s.nodes) and 1 not in c.gap:
+                lines.append("x%s%d diff13 exact %s %s %s 1" % (tag, k, tg.hx(c.s.dsl()), c.a, c.b))
+        rm = run_model(cx, schemas, lines)
+        for l in lines:
+            r = rm.get(l.split()[0], ["err", "NoReply"])
+            cx.count(" ".join(l.split()[2:]), True, "exact:" + " ".join(r[:1] + r[1:5]))
+            if r[0] != "ok" or r[1:5] != ["1", "1", "1", "1"]:
+                # the trees are in the fragment (no user-ordered schema node at all) but the diff is not an exact diff
+                cx.disagree(COMP, l, ["ok", "1", "1", "1", "1"], r)
     # ---- 2. reverse and merge: implementation everywhere, model inside its fragment
     lines, mlines, idx = [], [], {}
     for k, c in enumerate(cases):
@@ -432,7 +459,7 @@ def process(cx, schemas, cases, tag, reverse=True, merge=True, laws_every=4, mer
                 l = "%s %s reverse %s %s %s %d" % (i, COMP, d, c.a, c.b, o)
                 lines.append(l)
                 idx[i] = (c, o, None)
-                if in_fragment(c.f1[o]):
+                if in_fragment(c.f1[o]) and o not in c.gap:
                     mlines.append(l)
                 else:
                     cx.dist["out-of-fragment(reverse)"] += 1
@@ -444,7 +471,8 @@ def process(cx, schemas, cases, tag, reverse=True, merge=True, laws_every=4, mer
                 l = "%s %s merge3 %s %s %s %s %d %d" % (i, COMP, d, c.a, c.b, c.c, o, mo)
                 lines.append(l)
                 idx[i] = (c, o, mo)
-                if in_fragment(c.f1[o]) and in_fragment(c.f2[o]) and not c06.dupinst_has_duplicates(tg.untok(c.s, c.a)):
+                if in_fragment(c.f1[o]) and in_fragment(c.f2[o]) and not c06.dupinst_has_duplicates(tg.untok(c.s, c.a)) and \
+                        o not in c.gap:
                     mlines.append(l)
                 else:
                     cx.dist["out-of-fragment(merge)"] += 1
@@ -611,6 +639,8 @@ def run(cx):
     nsch = cx.n(24, 120)
     per = cx.n(36, 400)
     schemas = [tg.gen_schema(rng, i, max_depth=rng.choice([2, 3, 3])) for i in range(nsch)]
+    # the fragment of the theorems: no user-ordered and no state nodes at all
+    schemas += [tg.gen_schema(rng, 1000 + i, max_depth=rng.choice([2, 3, 3]), userord=False, state=False) for i in range(cx.n(10, 60))]
     cases = load_corpus(cx)
     for i, s in enumerate(schemas):
         cases += gen_triples(cx, s, cx.sub_rng("triples%d" % i), per)
